@@ -542,6 +542,21 @@ class FixedSchedule:
         return runnable[0]
 
 
+class PreemptAt:
+    """Run non-preemptively except at the given decision steps, where the k-th *other* runnable actor is chosen."""
+
+    def __init__(self, points):
+        self.points = dict(points)
+
+    def choose(self, runnable, current, step, waiting):
+        default = current if current is not None else runnable[0]
+        if step in self.points:
+            others = [r for r in runnable if r != default]
+            if others:
+                return others[self.points[step] % len(others)]
+        return default
+
+
 class DFSExplorer:
     """Stateless depth-first exploration of schedules with a preemption bound.
 
